@@ -207,9 +207,27 @@ def gen_bind() -> str:
     return "\n".join(lines)
 
 
-GENERATORS = {"Host": gen_host, "Pio": gen_pio, "Buzzer": gen_buzzer, "Bind": gen_bind, "Ops": gen_ops, "Eval": gen_eval, "Types": gen_types}
+def gen_layout() -> str:
+    """TRANSLATED (harness/pytolean.py), not extracted: the character-level layout functions of the parser as Lean definitions (C07).
+    A source outside the translator's subset raises pytolean.Unsupported, reported as a broken obligation by `regenerate`."""
+    import importlib
+    import pytolean
+    pa = importlib.import_module("Reduino.transpile.parser")
+    return pytolean.module_text("Reduino.Gen.Layout", [pa._indent_of, pa._strip_inline_comment], imports=["Reduino.Lang.Layout"])
+
+
+def gen_escape() -> str:
+    """TRANSLATED (harness/pytolean.py): `_escape_string_literal` of the parser (C06)"""
+    import importlib
+    import pytolean
+    pa = importlib.import_module("Reduino.transpile.parser")
+    return pytolean.module_text("Reduino.Gen.Escape", [pa._escape_string_literal], imports=["Reduino.Lang.Escape"])
+
+
+GENERATORS = {"Layout": gen_layout, "Escape": gen_escape, "Host": gen_host, "Pio": gen_pio, "Buzzer": gen_buzzer, "Bind": gen_bind, "Ops": gen_ops, "Eval": gen_eval, "Types": gen_types}
 # generators that are slow (they probe the transpiler) run only for the checks that need them, and in setup
-NEEDS = {"Bind": {"C08"}}
+# translated functions are regenerated for the check whose theorems rest on them (an untranslatable source breaks THAT check's obligation)
+NEEDS = {"Bind": {"C08"}, "Layout": {"C07"}, "Escape": {"C06"}}
 
 
 def regenerate(ctx=None, only=None):
